@@ -15,6 +15,7 @@
 package service
 
 import (
+	"bufio"
 	"encoding/binary"
 	"fmt"
 	"io"
@@ -158,6 +159,13 @@ func (svc *service) peekMessageSize() (message.Type, int, error) {
 
 	// Total message length is remlen + 1 (msg type) + m (remlen bytes)
 	total := int(remlen) + 1 + m
+
+	// A message that leaves less than one read block of room in the buffer can stall the
+	// connection for good: the receiver waits for a free read block while the processor
+	// waits for the rest of the message. Refuse it like a message larger than the buffer.
+	if int64(total) > svc.in.size-defaultReadBlockSize {
+		return 0, 0, bufio.ErrBufferFull
+	}
 
 	mtype := message.Type(b[0] >> 4)
 
